@@ -46,15 +46,18 @@ class SegmentModel:
         self.record_loop = None
         for m in writer_cls.methods.values():
             for n in walk_local(m.node):
-                if isinstance(n, ast.For) and isinstance(n.iter, ast.Call) and isinstance(n.iter.func, ast.Attribute) \
-                        and isinstance(n.iter.func.value, ast.Call) \
-                        and isinstance(n.iter.func.value.func, ast.Attribute) \
-                        and n.iter.func.value.func.attr == "represent_as_bytes":
-                    self.record_loop = (m, n)
+                if isinstance(n, ast.For):
+                    for c in ast.walk(n.iter):
+                        if isinstance(c, ast.Call) and isinstance(c.func, ast.Attribute) \
+                                and isinstance(c.func.value, ast.Call) \
+                                and isinstance(c.func.value.func, ast.Attribute) \
+                                and c.func.value.func.attr == "represent_as_bytes":
+                            self.record_loop = (m, n)
+                            self.seg_call = c
         if self.record_loop is None:
             raise AnalysisError("anchor: loop over <record>.represent_as_bytes().<segmenter>(...) not found in "
                                 f"{writer_cls.name}")
-        seg_name = self.record_loop[1].iter.func.attr
+        seg_name = self.seg_call.func.attr
         cands = [f for f in ix.functions.values() if f.name == seg_name and f.cls is not None and f.is_generator()]
         if len(cands) != 1:
             raise AnalysisError(f"anchor: segmenter generator '{seg_name}': {len(cands)} candidates")
@@ -104,7 +107,7 @@ class SegmentModel:
     def _capacity_expr(self):
         it, ix = self.it, self.ix
         m, loop = self.record_loop
-        call = loop.iter
+        call = self.seg_call
         if len(call.args) != 1:
             raise AnalysisError("segmenter call: expected one positional argument (the capacity)")
         arg = call.args[0]
